@@ -95,7 +95,7 @@ def check_property(prop, tier):
     t0 = time.time()
     seed = int(os.environ.get("VERIF_SEED", "0") or 0)
     info = P.PROPS.get(prop)
-    evpath = os.path.join(V.VERIF, "evidence", prop + ".json")
+    evpath = os.path.join(os.environ.get("VP_EVIDENCE_DIR") or os.path.join(V.VERIF, "evidence"), prop + ".json")
     os.makedirs(os.path.dirname(evpath), exist_ok=True)
     if info is None or info.get("not_applicable"):
         print("property %s is not claimed (not applicable): %s" % (prop, (info or {}).get("not_applicable", "unknown id")))
@@ -220,7 +220,7 @@ def check_property(prop, tier):
     ex.shutdown(wait=False)
     # --- report
     rc = 0
-    repdir = os.path.join(V.VERIF, "replays", prop)
+    repdir = os.path.join(os.environ.get("VP_REPLAY_DIR") or os.path.join(V.VERIF, "replays"), prop)
     for k, ob, where, site in known_hits:
         print("KNOWN-FINDING: property=%s %s [%s at %s]" % (prop, k.get("what", ""), ob, where))
     listed_not_seen = [k for k in known if k.get("property") == prop and not any(k is kh[0] for kh in known_hits)]
